@@ -280,7 +280,7 @@ theorem readBody_good (L : Nat) (rd : Order → List UInt8 → GRes) (hrd : RdGo
       obtain ⟨n, b1⟩ := v1
       have l1 := readU32_len h1
       simp only
-      by_cases hg : b1.length < n * 16
+      by_cases hg : b1.length < n * 9
       · simp [hg, Good3]
       · simp only [hg, if_false]
         have i2 := readN_good L _ (asChild_good L rd hrd isSimpleCurve) n h.order b1 (by omega)
